@@ -33,7 +33,7 @@ theorem C20_within_limit (env : Env) (st st' : St) (head lname cls : String) (is
     (q : String) (b : Int) (hG : GroupsOK env st.groups)
     (h : getQuantizer env st head lname cls isLinear = .ok (some (q, b), st')) :
     ∃ key, resolveKey env lname cls = some key ∧
-      AllowedAt env key (headField isLinear head).2 q b :=
+      AllowedAt env key (headField isLinear head lname).2 q b :=
   let ⟨_, _, _, hs⟩ := getQuantizer_spec hG h
   let ⟨key, hk, hA, _⟩ := hs q b rfl
   ⟨key, hk, hA⟩
@@ -44,9 +44,9 @@ theorem C20_within_limit_explicit (env : Env) (st st' : St) (head lname cls : St
     (h : getQuantizer env st head lname cls isLinear = .ok (some (q, b), st'))
     (key : String) (l : List LimVal) (hkey : resolveKey env lname cls = some key)
     (hl : alookup key env.limit = some (.vals l)) :
-    (∀ L, pyIndex l (headField isLinear head).2 = some (.num L) → b ≤ L) ∧
-    (∀ qs, pyIndex l (headField isLinear head).2 = some (.lst qs) → q ∈ qs) ∧
-    (∃ field qd, (field, (headField isLinear head).2) ∈ fieldIndexTable ∧
+    (∀ L, pyIndex l (headField isLinear head lname).2 = some (.num L) → b ≤ L) ∧
+    (∀ qs, pyIndex l (headField isLinear head lname).2 = some (.lst qs) → q ∈ qs) ∧
+    (∃ field qd, (field, (headField isLinear head lname).2) ∈ fieldIndexTable ∧
         alookup field env.config = some qd ∧ (q, b) ∈ qd) := by
   obtain ⟨key', hk', l', lv, field, qd, hl', hlv, hf, hqd, hmem, hok⟩ :=
     C20_within_limit env st st' head lname cls isLinear q b hG h
@@ -62,7 +62,7 @@ theorem C20_fresh_choice_field (env : Env) (st st' : St) (head lname cls : Strin
     (h : getQuantizer env st head lname cls isLinear = .ok (some (q, b), st'))
     (hfresh : patternOf env lname = none) :
     ∃ key, resolveKey env lname cls = some key ∧
-      AllowedField env key (headField isLinear head).1 (headField isLinear head).2 q b :=
+      AllowedField env key (headField isLinear head lname).1 (headField isLinear head lname).2 q b :=
   let ⟨_, _, _, hs⟩ := getQuantizer_spec hG h
   let ⟨key, hk, _, _, hF⟩ := hs q b rfl
   ⟨key, hk, hF (Or.inr hfresh)⟩
@@ -102,11 +102,11 @@ theorem C20_outside_unquantized (env : Env) (st st' : St) (head lname cls : Stri
 theorem C20_outside_unquantized_total (env : Env) (st : St) (head lname cls : String)
     (isLinear : Bool) (hcls : alookup cls env.limit = none)
     (hpat : ∀ p ∈ limKeys env.limit, env.matches p lname = false)
-    (hf : (alookup (headField isLinear head).1 env.config).isSome) :
+    (hf : (alookup (headField isLinear head lname).1 env.config).isSome) :
     getQuantizer env st head lname cls isLinear = .ok (none, st) := by
   unfold getQuantizer
   simp only
-  cases hq : alookup (headField isLinear head).1 env.config with
+  cases hq : alookup (headField isLinear head lname).1 env.config with
   | none => rw [hq] at hf; cases hf
   | some qd =>
     simp only
@@ -191,7 +191,45 @@ theorem C20_architecture_none (env : Env) (tn : Tune) (layers : List Layer) (o :
     | cons hab _ ih => rw [hab, ih]
   exact key _ _ this
 
-/-! ## 5. where the code does NOT keep the property (mirrored defects, see known/C20.json) -/
+/-! ## 5. the dictionary handed to `model_quantize`, per layer and role (after fixes F1–F3) -/
+
+/-- the role is decided by the suffix alone, whatever the layer is called (fix F3) -/
+theorem C20_head_role (n : String) :
+    headField false (n ++ "_kernel") n = ("kernel", 0) ∧
+    headField false (n ++ "_bias") n = ("bias", 1) ∧
+    headField false (n ++ "_activation") n = ("activation", -1) ∧
+    headField false (n ++ "_recurrent_activation") n = ("recurrent_activation", -1) ∧
+    headField false (n ++ "_pointwise_kernel") n = ("kernel", 0) ∧
+    headField false (n ++ "_recurrent_kernel") n = ("kernel", 0) ∧
+    headField true (n ++ "_activation") n = ("linear", 0) := by
+  simp only [headField_suffix]
+  decide
+
+/-- Every quantizer string of the dictionary (kernel / depthwise / pointwise / recurrent kernel,
+    bias, fused activation, recurrent activation; string entries of `Activation` layers) belongs
+    to a layer `L` of that name, and for THAT layer's pattern-or-class key `limit[key][pos(role)]`
+    admits it (`QOK`, i.e. `AllowedAt`): an entry of a configuration field of that position with
+    bits ≤ the numeric limit / member of the list limit.  For ALL tuner oracles.  (With distinct
+    layer names `L` is the layer itself.) -/
+theorem C20_model_within_limit (env : Env) (tn : Tune) (layers : List Layer) (o : QmOut)
+    (h : quantizeModel env tn layers = .ok o) : ∀ x ∈ o.qdict, EntryOK env layers x.1 x.2 :=
+  quantizeModel_within h
+
+/-- spelled out for a numeric limit of a weight-layer entry -/
+theorem C20_model_within_limit_numeric (env : Env) (tn : Tune) (layers : List Layer) (o : QmOut)
+    (h : quantizeModel env tn layers = .ok o) (name : String) (d : List (String × Option String))
+    (hx : (name, QEntry.dict d) ∈ o.qdict) (key q : String) (hq : (key, some q) ∈ d) :
+    ∃ L ∈ layers, L.name = name ∧ ∃ suf lkey b, roleSuffix key = some suf ∧
+      resolveKey env L.name L.cls = some lkey ∧
+      ∀ l Lim, alookup lkey env.limit = some (.vals l) →
+        pyIndex l (roleField false suf.toList).2 = some (.num Lim) → b ≤ Lim := by
+  obtain ⟨L, hL, hn, suf, hs, lkey, b, hk, l', lv, field, qd, hl', hlv, _, _, _, hok⟩ :=
+    C20_model_within_limit env tn layers o h (name, .dict d) hx key q hq
+  refine ⟨L, hL, hn, suf, lkey, b, hs, hk, ?_⟩
+  intro l Lim hl hp
+  rw [hl] at hl'; cases hl'
+  rw [hp] at hlv; cases hlv
+  exact hok
 
 private def cexConfig : Config :=
   [("kernel", [("binary", 1), ("ternary", 2), ("quantized_bits(4,0,1)", 4)]),
@@ -200,27 +238,43 @@ private def cexConfig : Config :=
    ("linear", [("ternary", 2)])]
 
 private def cexEnv : Env :=
-  { limit := [("sep_1", .vals [.num 1, .num 4, .num 3]), ("SeparableConv2D", .vals [.num 4, .num 4, .num 3])],
+  { limit := [("sep_1", .vals [.num 1, .num 4, .num 3]), ("SeparableConv2D", .vals [.num 4, .num 4, .num 3]),
+              ("Dense", .vals [.num 4, .num 4, .num 2])],
     config := cexConfig,
     «matches» := fun p n => p == n,
     choose := fun _ l => if "quantized_bits(4,0,1)" ∈ l then "quantized_bits(4,0,1)" else l.headD "" }
 
 private def cexLayers : List Layer :=
   [{ name := "sep_1", cls := "SeparableConv2D", size := 2 },
-   { name := "sep_2", cls := "SeparableConv2D", size := 2 }]
+   { name := "sep_2", cls := "SeparableConv2D", size := 2 },
+   { name := "kernel_fc", cls := "Dense", act := "relu", size := 4 }]
 
-/-- F1 (shared variable): `sep_1` is limited to 1-bit kernels by its pattern, yet the dictionary
-    handed to `model_quantize` gives it the 4-bit pointwise quantizer chosen for `sep_2` (the oracle
-    is a valid tuner: it returns the last offered option). -/
-theorem C20_pointwise_shared_counterexample :
-    ValidOracle cexEnv.choose ∧
-    (quantizeModel cexEnv {} cexLayers).toOption.map (fun o => alookup "sep_1" o.qdict) =
+/-- regression witness of F1: `sep_1` (1-bit pattern limit) keeps its own 1-bit pointwise
+    quantizer although `sep_2` chooses a 4-bit one -/
+theorem C20_pointwise_per_layer_regression :
+    (quantizeModel cexEnv {} cexLayers).toOption.map (fun o => (alookup "sep_1" o.qdict, alookup "sep_2" o.qdict)) =
       some (some (.dict [("depthwise_quantizer", some "binary"),
+                         ("pointwise_quantizer", some "binary"),
+                         ("bias_quantizer", some "quantized_bits(4,0,1)")]),
+            some (.dict [("depthwise_quantizer", some "quantized_bits(4,0,1)"),
                          ("pointwise_quantizer", some "quantized_bits(4,0,1)"),
-                         ("bias_quantizer", some "quantized_bits(4,0,1)")])) ∧
-    alookup "quantized_bits(4,0,1)" [("binary", (1 : Int)), ("ternary", 2), ("quantized_bits(4,0,1)", 4)] = some 4 ∧
-    resolveKey cexEnv "sep_1" "SeparableConv2D" = some "sep_1" := by
-  refine ⟨?_, by decide, by decide, by decide⟩
+                         ("bias_quantizer", some "quantized_bits(4,0,1)")])) := by decide
+
+/-- regression witness of F2 and F3: a Dense/relu layer NAMED `kernel_fc`, activations limited to
+    2 bits: bias from the bias list, the fused activation is the configured 1-bit `binary`, and that
+    is what `model_quantize` (activation_bits = 4) puts on the layer -/
+theorem C20_fused_activation_regression :
+    (quantizeModel cexEnv {} cexLayers).toOption.map
+        (fun o => (alookup "kernel_fc" o.qdict,
+                   (applied (alookup "kernel_fc" o.qdict)
+                      { name := "kernel_fc", cls := "Dense", act := "relu", size := 4 } 4).activation)) =
+      some (some (.dict [("kernel_quantizer", some "quantized_bits(4,0,1)"),
+                         ("bias_quantizer", some "quantized_bits(4,0,1)"),
+                         ("activation_quantizer", some "binary")]),
+            some "binary") := by decide
+
+/-- the oracle used in the witnesses is a valid tuner -/
+example : ValidOracle cexEnv.choose := by
   intro nm l hl
   show (if "quantized_bits(4,0,1)" ∈ l then "quantized_bits(4,0,1)" else l.headD "") ∈ l
   split
@@ -229,31 +283,11 @@ theorem C20_pointwise_shared_counterexample :
     | nil => exact absurd rfl hl
     | cons a t => simp
 
-/-- F2 (key mismatch): the hyper-model writes the chosen fused activation under `"activation"`,
-    `model_quantize` reads `"activation_quantizer"`; a Dense/relu layer limited to 2-bit activations
-    with the 1-bit choice `binary` ends up with `quantized_relu(4)` (activation_bits = 4). -/
-theorem C20_fused_activation_counterexample :
-    (applied (some (.dict [("kernel_quantizer", some "binary"), ("bias_quantizer", some "quantized_bits(4,0,1)"),
-                           ("activation", some "binary")]))
-        { name := "d0", cls := "Dense", act := "relu", size := 4 } 4).activation
-      = some "quantized_relu(4)" := by decide
-
-/-- F3 (substring dispatch): for a layer NAMED `kernel_fc` the bias and activation heads are
-    dispatched to the kernel field and list position 0. -/
-theorem C20_head_substring_counterexample :
-    headField false "kernel_fc_bias" = ("kernel", 0) ∧
-    headField false "kernel_fc_activation" = ("kernel", 0) ∧
-    headField false "fc_bias_x_activation" = ("bias", 1) := by decide
-
-/-- for ordinary names the dispatch is the intended one (non-vacuity of the role reading) -/
-example : headField false "dense_1_kernel" = ("kernel", 0) ∧ headField false "dense_1_bias" = ("bias", 1) ∧
-    headField false "dense_1_activation" = ("activation", -1) ∧
-    headField false "lstm_recurrent_activation" = ("recurrent_activation", -1) ∧
-    headField true "act_activation" = ("linear", 0) := by decide
-
-/-- the pointwise / recurrent-kernel branches of the chain are shadowed by `"kernel" in head` -/
-example : headField false "sep_pointwise_kernel" = ("kernel", 0) ∧
-    headField false "lstm_recurrent_kernel" = ("kernel", 0) := by decide
+/-- layer names containing the role words are dispatched like any other (were F3 counterexamples) -/
+theorem C20_head_suffix_regression :
+    headField false "kernel_fc_bias" "kernel_fc" = ("bias", 1) ∧
+    headField false "kernel_fc_activation" "kernel_fc" = ("activation", -1) ∧
+    headField false "fc_bias_x_activation" "fc_bias_x" = ("activation", -1) := by decide
 
 /-! ### non-vacuity of §1–§4 -/
 
